@@ -784,6 +784,15 @@ func main() {
 		for _, s := range out.Samples {
 			fmt.Println(string(s))
 		}
+	case "modeltest": // unit tests of the reference model (part of setup_cmd)
+		dir, _ := ensureBuild(false)
+		cmd := exec.Command(filepath.Join(dir, "sim.test"), "-test.run", "^TestModel", "-test.v")
+		cmd.Env = append(os.Environ(), "VERIF_JOB=")
+		out, err := cmd.CombinedOutput()
+		fmt.Print(tailLines(string(out), 12))
+		if err != nil {
+			die(2, "the reference model's own unit tests fail")
+		}
 	case "build":
 		dir, hash := ensureBuild(false)
 		fmt.Println(dir, hash)
@@ -816,4 +825,18 @@ func (t *tailWriter) String() string {
 		return string(t.buf[len(t.buf)-t.max:])
 	}
 	return string(t.buf)
+}
+
+func tailLines(s string, n int) string {
+	lines := strings.Split(strings.TrimRight(s, "\n"), "\n")
+	var keep []string
+	for _, l := range lines {
+		if strings.HasPrefix(l, "---") || strings.HasPrefix(l, "===") || strings.HasPrefix(l, "PASS") || strings.HasPrefix(l, "FAIL") || strings.Contains(l, "_test.go") {
+			keep = append(keep, l)
+		}
+	}
+	if len(keep) > n {
+		keep = keep[len(keep)-n:]
+	}
+	return strings.Join(keep, "\n") + "\n"
 }
